@@ -5,7 +5,7 @@
  2. TLC exports the graph space (GenRev) and the session space (GenSess).
  3. Every exported graph is run as a real program on /repo (harness/rev_replay.py), events recorded.
  4. TLC validates every recorded trace against RevAbs (spec/trace/TraceRev.tla).
- 5. Unaccepted traces are violations; a Python mirror names the failing clause (disagreement with TLC = exit 2).
+ 5. Unaccepted traces are violations; a Python mirror names the failing clause (TLC is the judge: vlib.reconcile).
 """
 import json
 import os
@@ -107,7 +107,8 @@ def _run(pid, tier, seed, models, mutants, graph_sets, decorate, level_text, ass
         tr = by_id[tid]
         d = diagnose(tr)
         if d is None:
-            raise vlib.MachineryError("TLC rejected trace %d but the Python mirror accepts it: %s" % (tid, tr))
+            vlib.reconcile("trace %d" % tid, False, True)
+            d = (0, vlib.UNNAMED)
         c = case_by_id[tid]
         facets = {"graph": tr["args"], "session": c["session"], "api": c.get("api"), "builtin": bool(c.get("builtin")),
                   "nodes": len(tr["args"])}
